@@ -33,6 +33,8 @@ type concOp struct {
 	// temporary kind (a caller that retried would write again, outside anything that orders it with other senders)
 	wfail bool
 	wacc  int
+	// S with acks: the peer delivers the ack this long after it received the message
+	ackDelay time.Duration
 }
 
 func (o concOp) model(cf ccfg) string {
@@ -170,7 +172,7 @@ func runConcMode(cf ccfg, prefix []concOp, progs [][]concOp, choices []int, time
 				if !o.ackOK {
 					ch = append(append([]byte{}, o.chunk...), '!')
 				}
-				c.SetScriptInWrite([]fakes.ReadStep{{Data: ackBytes(ch)}})
+				c.SetScriptInWrite([]fakes.ReadStep{{Data: ackBytes(ch), Delay: o.ackDelay}})
 			}
 			if o != nil && (o.kind == "S" || o.kind == "W") && o.wfail {
 				mu.Lock()
